@@ -37,7 +37,9 @@ def prepare(tier):
 
 
 def gen_config(rng, tier, index=0):
-    return wl_call.gen_config(rng, tier, "db")
+    cfg = wl_call.gen_config(rng, tier, "db")
+    cfg["record_kernels"] = tier == "thorough" and index % 20 == 0
+    return cfg
 
 
 def execute(ctx):
@@ -52,6 +54,41 @@ def sut_exception_is_violation(e, ctx):
 
 def shrink_candidates(cfg, violation):
     return wl_call.shrink_candidates(cfg, violation)
+
+
+def post_batch(tier, base_seed, results):
+    """Thorough tier: gibbs_options / mh_options are recomputed COMPILED (JIT on, separate process) on states the
+    interpreted runs visited and must agree with the interpreted vectors to 1e-9 (narrows the trusted base
+    'numba compiles these functions faithfully')."""
+    if tier != "thorough":
+        return {"evidence": {"compiled_kernel_comparison": "thorough tier only"}}
+    import json
+    import os
+    import subprocess
+    import sys
+    import tempfile
+    from . import cachedir
+    from .core import VERIF_DIR, HarnessError
+    recs = [e for r in results for e in (r.get("extra") or [])]
+    if not recs:
+        raise HarnessError("no kernel records were collected")
+    fd, path = tempfile.mkstemp(prefix="verif-kernels-", suffix=".json")
+    try:
+        with os.fdopen(fd, "w") as f:
+            json.dump({"records": recs}, f)
+        env = dict(os.environ, NUMBA_DISABLE_JIT="0", NUMBA_CACHE_DIR=cachedir.numba_cache_dir())
+        p = subprocess.run([sys.executable, "-W", "ignore", os.path.join(VERIF_DIR, "sim", "probe_compiled.py"), "kernels", path],
+                           capture_output=True, text=True, env=env, timeout=3600)
+        if p.returncode != 0:
+            raise HarnessError("compiled kernel probe failed: %s" % p.stderr[-1500:])
+        doc = json.loads(p.stdout.strip().splitlines()[-1])
+    finally:
+        os.unlink(path)
+    out = {"evidence": {"compiled_kernel_comparison": {"records": len(recs), "compared": doc["compared"], "mismatches": len(doc["mismatches"])}}, "violations": []}
+    if doc["mismatches"]:
+        out["violations"].append({"class": "compiled_kernel_differs", "message": "compiled gibbs_options / mh_options disagree with the interpreted vectors: %r" % doc["mismatches"][:2],
+                                  "detail": doc["mismatches"][:10]})
+    return out
 
 
 def evidence(tier, results, counters):
